@@ -352,6 +352,21 @@ mod fen {
         }
     }
 
+    /// Verification hooks (guard: cfg(any(kani, weechess_verif))): the private field parsers that sit
+    /// behind the regex gate of `Fen::try_from_notation`, re-exported unchanged.
+    #[cfg(any(kani, weechess_verif))]
+    pub fn verif_board_try_parse(s: &str) -> Result<Board, ()> {
+        Board::try_parse(s)
+    }
+
+    #[cfg(any(kani, weechess_verif))]
+    pub fn verif_castle_try_parse(s: &str) -> Result<ArrayMap<Color, CastleRights>, ()> {
+        ArrayMap::<Color, CastleRights>::try_parse(s)
+    }
+
+    #[cfg(any(kani, weechess_verif))]
+    pub const VERIF_FEN_REGEX: &str = FEN_REGEX;
+
     #[cfg(test)]
     mod tests {
         use super::*;
